@@ -4,7 +4,14 @@
 (* the monitor has no internal steps, so validation is linear in the trace.  *)
 EXTENDS B2FProps, TraceLib
 
-TraceInit == TraceInitTL /\ Init
+(* C04: the harness altered the transfer of message m in transit in the faulted session of this trace;       *)
+(* alt[m] says whether every integrity check of the protocol still holds for the altered bytes (computed by   *)
+(* the independent lexer and CRC).                                                                             *)
+VARIABLE alt
+
+TraceInit == TraceInitTL /\ Init /\ alt = Empty
+
+TAltered == IsEvent("Altered") /\ alt' = Put(alt, Ev.m, Ev.holds) /\ UNCHANGED vars /\ Consume
 
 TQueue   == IsEvent("Queue") /\ Queue(Ev.s, Ev.m, Ev.policy, Ev.prec) /\ Consume
 TSession == IsEvent("Session") /\ NewSession(Ev.master, Ev.fault) /\ Consume
@@ -12,7 +19,13 @@ TCut     == IsEvent("Cut") /\ Fault /\ Consume
 TPrepare == IsEvent("Prepare") /\ ret[Ev.s] = "run" /\ UNCHANGED vars /\ Consume
 TOffer   == IsEvent("Offer") /\ Offer(Ev.s, SeqSet(Ev.ms)) /\ Consume
 THAnswer == IsEvent("HAnswer") /\ HAnswer(Ev.s, Ev.m, Ev.a) /\ Consume
-TStore   == IsEvent("Store") /\ Store(Ev.s, Ev.m, Ev.intact, Ev.err) /\ Consume
+(* A transfer whose checks no longer hold must not be delivered at all (DeliverOnlyIntact); one that an       *)
+(* independent judge also accepts as fully valid is excluded from the intactness demand, as C04 states.        *)
+TStore   == /\ IsEvent("Store")
+            /\ IF faulted /\ Ev.m \in DOMAIN alt
+                 THEN alt[Ev.m] /\ Store(Ev.s, Ev.m, TRUE, Ev.err)
+                 ELSE Store(Ev.s, Ev.m, Ev.intact, Ev.err)
+            /\ Consume
 TSetSent == IsEvent("SetSent") /\ SetSent(Ev.s, Ev.m, Ev.rej) /\ Consume
 TSetDef  == IsEvent("SetDeferred") /\ SetDeferred(Ev.s, Ev.m) /\ Consume
 TReturn  == IsEvent("Return") /\ Return(Ev.s, Ev.res, [sent |-> SeqSet(Ev.sent), recv |-> SeqSet(Ev.recv)]) /\ Consume
@@ -37,8 +50,9 @@ TUnit ==
        \* kind "Bad" (anything the lexer could not accept) matches no action
     /\ Consume
 
-TraceNext == TQueue \/ TSession \/ TCut \/ TPrepare \/ TOffer \/ THAnswer \/ TStore \/ TSetSent \/ TSetDef
+TraceNextB == TQueue \/ TSession \/ TCut \/ TPrepare \/ TOffer \/ THAnswer \/ TStore \/ TSetSent \/ TSetDef
              \/ TReturn \/ TClose \/ TEnd \/ TEndAll \/ TUnit
 
-TraceSpec == TraceInit /\ [][TraceNext]_<<vars, tvars>>
+TraceNext == TAltered \/ (UNCHANGED alt /\ TraceNextB)
+TraceSpec == TraceInit /\ [][TraceNext]_<<vars, tvars, alt>>
 =============================================================================
